@@ -22,7 +22,7 @@
      release    an over-release reports (held, w) once and resets held to 0
      processing Processing() = held                                                      *)
 From Coq Require Import NArith ZArith List Bool.
-From LV Require Import lib.ZPlain model.Semaphore.
+From LV Require Import model.Semaphore.
 Import ListNotations.
 
 Definition fitsb (h w c : metric) : bool :=
@@ -55,7 +55,7 @@ Record sst := mkSS {
 Definition spec_op (s : sst) (t : Z) (op : sop) : option sst :=
   match op with
   | SAcq id w timeout =>
-    Some (mkSS (g_held s) (g_cap0 s) (g_cap s) (g_pend s ++ [mkP id w (zadd t timeout)]) (g_tries s) (g_rels s) (g_procs s))
+    Some (mkSS (g_held s) (g_cap0 s) (g_cap s) (g_pend s ++ [mkP id w (Z.add t timeout)]) (g_tries s) (g_rels s) (g_procs s))
   | STry w =>
     match g_tries s with
     | b :: r =>
@@ -93,8 +93,8 @@ Definition classify (rets : list (N * (bool * Z))) (t : Z) (p : pend) : cls :=
   match lookup_ret (pid p) rets with
   | None => Pending
   | Some (ok, t') =>
-    if zeqb t' t then (if ok then Granted else Refused)
-    else if zltb t t' then Pending else Bad     (* returned before this instant but still pending: before its call *)
+    if Z.eqb t' t then (if ok then Granted else Refused)
+    else if Z.ltb t t' then Pending else Bad     (* returned before this instant but still pending: before its call *)
   end.
 
 Definition is_cls (c d : cls) : bool :=
@@ -110,15 +110,15 @@ Definition spec_returns (rets : list (N * (bool * Z))) (s : sst) (t : Z) : optio
   else if negb (fitsb h_end mzero (g_cap0 s)) then None                          (* bound *)
   else if negb (match cl Granted with [] => true | _ => fitsb h_end mzero c end) then None   (* grants fit *)
   else if negb (forallb (fun p => negb (fitsb h_end (pw p) c) &&
-                                  (exceedsb (pw p) c || zleb (pdl p) t)) (cl Refused)) then None
+                                  (exceedsb (pw p) c || Z.leb (pdl p) t)) (cl Refused)) then None
   else if negb (forallb (fun p => negb (fitsb h_end (pw p) c) &&
-                                  negb (exceedsb (pw p) c) && zltb t (pdl p)) (cl Pending)) then None
+                                  negb (exceedsb (pw p) c) && Z.ltb t (pdl p)) (cl Pending)) then None
   else Some (mkSS h_end (g_cap0 s) c (cl Pending) (g_tries s) (g_rels s) (g_procs s)).
 
 Fixpoint find_op (t : Z) (sc : list (Z * sop)) : option sop :=
   match sc with
   | [] => None
-  | (t', op) :: r => if zeqb t' t then Some op else find_op t r
+  | (t', op) :: r => if Z.eqb t' t then Some op else find_op t r
   end.
 
 Definition spec_instant rets (sc : list (Z * sop)) (s : sst) (t : Z) : option sst :=
@@ -137,12 +137,12 @@ Fixpoint spec_run rets sc (s : sst) (ts : list Z) : option sst :=
 Fixpoint insertZ (x : Z) (l : list Z) : list Z :=
   match l with
   | [] => [x]
-  | y :: r => if zltb x y then x :: l else if zeqb x y then l else y :: insertZ x r
+  | y :: r => if Z.ltb x y then x :: l else if Z.eqb x y then l else y :: insertZ x r
   end.
 Definition sortZ (l : list Z) : list Z := fold_right insertZ [] l.
 
 Definition deadlines (sc : list (Z * sop)) : list Z :=
-  flat_map (fun x => match snd x with SAcq _ _ timeout => [zadd (fst x) timeout] | _ => [] end) sc.
+  flat_map (fun x => match snd x with SAcq _ _ timeout => [Z.add (fst x) timeout] | _ => [] end) sc.
 
 Definition instants (sc : list (Z * sop)) (d : digest) : list Z :=
   sortZ (map fst sc ++ deadlines sc ++ map (fun x => snd (snd x)) (d_rets d)).
